@@ -947,6 +947,128 @@ def scenario_evolution_kinds(ctx):
                         pass
 
 
+def scenario_if_flags(ctx):
+    """createTable(ifNotExists=True) / dropTable(ifExists=True), each twice in a row, from every catalogue state
+    {class table present/absent} x {link table present/absent} x {createJoinTables / dropJoinTables flag}, for a join
+    declared on one side, on both sides (either class) and a self-referential one declared in both directions."""
+    import sqlobject as so
+    conn = env()['conns']['sqlite']
+
+    def tables():
+        return sorted(r[0] for r in conn.queryAll("SELECT name FROM sqlite_master WHERE type='table' AND name NOT LIKE 'sqlite_%'"))
+    shapes = []
+    a_name, b_name = sqlo.uniq('C14FlagAa'), sqlo.uniq('C14FlagBb')
+    A = type(a_name, (so.SQLObject,), {'_connection': conn, 'n': so.IntCol(), 'others': so.RelatedJoin(b_name)})
+    B = type(b_name, (so.SQLObject,), {'_connection': conn, 'n': so.IntCol()})
+    shapes.append(('one-sided', A, [A, B], True))
+    a_name, b_name = sqlo.uniq('C14FlagAa'), sqlo.uniq('C14FlagBb')
+    A2 = type(a_name, (so.SQLObject,), {'_connection': conn, 'n': so.IntCol(), 'others': so.RelatedJoin(b_name)})
+    B2 = type(b_name, (so.SQLObject,), {'_connection': conn, 'n': so.IntCol(), 'others': so.RelatedJoin(a_name)})
+    shapes.append(('two-sided-owner', A2, [A2, B2], True))
+    shapes.append(('two-sided-other', B2, [A2, B2], False))
+    sj = sqlo.uniq('C14FlagSelf')
+    link_s = sj.lower() + '_link'
+    S = type(sj, (so.SQLObject,), {
+        '_connection': conn, 'n': so.IntCol(),
+        'fr': so.RelatedJoin(sj, joinColumn='a_id', otherColumn='b_id', intermediateTable=link_s, addRemoveName='Fr'),
+        'to': so.RelatedJoin(sj, joinColumn='b_id', otherColumn='a_id', intermediateTable=link_s, addRemoveName='To')})
+    shapes.append(('self-both-directions', S, [S], True))
+    lines, reals = [], []
+    for shape, X, classes, owns in shapes:
+        join = X.sqlmeta.joins[0]
+        link = join.intermediateTable
+        own_tables = [c.sqlmeta.table for c in classes] + [link]
+        declared_links = [j.intermediateTable for j in X.sqlmeta.joins] if owns else []
+        for cls_present in (True, False):
+            for link_present in (True, False):
+                for op in ('drop', 'create'):
+                    for flag in (True, False):
+                        case = {'scenario': 'if-flags', 'shape': shape, 'class_table': cls_present, 'link_table': link_present,
+                                'op': op, 'joins_flag': flag}
+                        try:
+                            for t in own_tables:
+                                conn.query('DROP TABLE IF EXISTS %s' % t)
+                            for c in classes:
+                                if c is not X or cls_present:
+                                    conn.query(conn.createTableSQL(c)[0])
+                            if link_present:
+                                conn._SO_createJoinTable(join)
+                            before = [t for t in tables() if t in own_tables]
+                            states, err = [], None
+                            for rep in (1, 2):
+                                try:
+                                    if op == 'drop':
+                                        X.dropTable(ifExists=True, dropJoinTables=flag)
+                                    else:
+                                        X.createTable(ifNotExists=True, createJoinTables=flag)
+                                except Exception as e:
+                                    err = 'call %d raises %s: %s' % (rep, sqlo.exc_name(e), str(e)[:80])
+                                    break
+                                states.append([t for t in tables() if t in own_tables])
+                            # the property's own expectation
+                            want = set(before)
+                            if op == 'drop' and cls_present:
+                                want.discard(X.sqlmeta.table)
+                                if flag and owns:
+                                    want.discard(link)
+                            if op == 'create' and not cls_present:
+                                want.add(X.sqlmeta.table)
+                                if flag and owns:
+                                    want.add(link)
+                            what = None
+                            if err:
+                                what = err + '; tables now %r (before %r)' % ([t for t in tables() if t in own_tables], before)
+                            elif set(states[0]) != want:
+                                what = 'tables after the first call %r, expected %r' % (states[0], sorted(want))
+                            elif states[1] != states[0]:
+                                what = 'the second call changed the catalogue: %r -> %r' % (states[0], states[1])
+                            if what:
+                                key = 'C14:drop-if-present' if op == 'drop' else 'C14:create-if-missing'
+                                ctx.oracle_fail('%s:%s' % (key, 'raises' if err else 'wrong-result'),
+                                                '%s(%s=True, %s=%s) x2 on %s with class table %s, link table %s: %s'
+                                                % ('dropTable' if op == 'drop' else 'createTable', 'ifExists' if op == 'drop' else 'ifNotExists',
+                                                   'dropJoinTables' if op == 'drop' else 'createJoinTables', flag, shape,
+                                                   'present' if cls_present else 'absent', 'present' if link_present else 'absent', what), case)
+                            ctx.count('if-flags-cell')
+                            lines.append('cat %s 1 %s %s %d %s %d %s' % (op, b01(flag), hx(X.sqlmeta.table), len(declared_links),
+                                                                      ' '.join(hx(l) for l in declared_links), len(before),
+                                                                      ' '.join(hx(t) for t in before)))
+                            lines[-1] = ' '.join(lines[-1].split())
+                            reals.append(('err' if err else 'ok ' + ' '.join(sorted(states[0])), case))
+                        except Exception as e:
+                            ctx.oracle_fail('C14:if-flags:raises', 'scenario raises %s: %s' % (type(e).__name__, e), case)
+        # plain create then plain drop of the whole shape
+        try:
+            for t in own_tables:
+                conn.query('DROP TABLE IF EXISTS %s' % t)
+            for c in classes:
+                c.createTable()
+            try:
+                for c in classes:
+                    c.dropTable()
+                left = [t for t in tables() if t in own_tables]
+                if left:
+                    ctx.oracle_fail('C14:plain-drop-after-create:leftover', '%s: tables %r survive dropTable() of every class' % (shape, left),
+                                    {'scenario': 'if-flags', 'shape': shape})
+            except Exception as e:
+                key = 'C14:join:self-join-plain-drop-raises' if shape == 'self-both-directions' else 'C14:plain-drop-after-create:raises'
+                ctx.oracle_fail(key, '%s: createTable() then dropTable() raises %s: %s (tables left: %r)'
+                                % (shape, sqlo.exc_name(e), str(e)[:80], [t for t in tables() if t in own_tables]),
+                                {'scenario': 'if-flags', 'shape': shape})
+        finally:
+            for t in own_tables:
+                try:
+                    conn.query('DROP TABLE IF EXISTS %s' % t)
+                except Exception:
+                    pass
+    outs = ctx.model(lines)
+    if outs is not None:
+        for o, (real, c) in zip(outs, reals):
+            if o.startswith('ok'):
+                o = 'ok ' + ' '.join(sorted(dec(t) for t in o.split()[1:]))
+            ctx.compare('catalogue: createTable/dropTable with if-flags and join flags: model = real on SQLite', c, o.strip(), real.strip())
+
+
 def scenario_evolution(ctx):
     import sqlobject as so
     conn = env()['conns']['sqlite']
@@ -1249,6 +1371,7 @@ def run(ctx):
     for i, spec in enumerate(corpus()):
         run_spec(ctx, spec, micro=bool(i % 2), mx=bool(i % 3 == 0), sample=i < 3)
     scenario_joins(ctx)
+    scenario_if_flags(ctx)
     scenario_evolution(ctx)
     scenario_evolution_ids(ctx)
     scenario_evolution_kinds(ctx)
@@ -1319,7 +1442,9 @@ def replay(case):
     if 'scenario' in case:
         from vlib.framework import prng
         c.rng = prng(0)
-        if case['scenario'] == 'evolution-ids':
+        if case['scenario'] == 'if-flags':
+            scenario_if_flags(c)
+        elif case['scenario'] == 'evolution-ids':
             scenario_evolution_ids(c)
         elif case['scenario'] == 'evolution-kinds':
             scenario_evolution_kinds(c)
